@@ -47,6 +47,7 @@ Outcome(s, f, k) ==
 Class(op) == CASE op[1] = "insert_misc" -> op[3]
                [] op[1] = "dist_add" -> IF op[3] \in {5, 6, 9, 10} /\ op[4] \in {0, 1, 2, 3} THEN 1 ELSE 0
                [] op[1] = "cpukind" -> op[5]
+               [] op[1] = "memattr" -> IF op[3] = 5 THEN 1 ELSE 0         \* an attribute with initiators (several per target)
                [] op[1] = "cpukind_info" -> 2 * op[3] + op[4]
                [] OTHER -> 0
 StepC(op, c) == /\ steps < MaxSteps /\ steps' = steps + 1 /\ hist' = Append(hist, op) /\ sig' = Append(sig, <<op[1], op[2], c>>)
